@@ -171,6 +171,8 @@ def run_workers(cases, seeds, ctx):
 
 def run(ctx):
     evorig.setup()
+    from .c16 import load_correspondence
+    load_correspondence(ctx)
     quick = ctx.tier == 'quick'
     seeds = [1, 2, 3, 4] if quick else list(range(1, 17))
     ctx.rule = ('upgrades V0 -> V1 of one generated app (1-3 mutations incl. ChangeMeta, rows present) plus the '
